@@ -77,6 +77,7 @@ class Session:
         self.stats = {}
         self.bounded = []
         self.replayers = {}  # contract name -> callable(vc, model) -> dict
+        self.runs = {}  # contract name -> (run, expected_exceptions): for the generic concrete re-execution
         self.undecided = []
         self.crashes = []
         self.violations = []  # dict(vc, replay_path, reproduced)
@@ -122,6 +123,7 @@ class Session:
         failure candidate ("must not raise": path condition must be unsat);
         callable(path)->bool says whether raising on that path is allowed.
         """
+        self.runs[name] = (run, expected_exceptions)
         st = ExploreStats()
         paths = 0
         n_assumed = 0
@@ -292,6 +294,8 @@ class Session:
                 reproduced = True
                 rp["native_replay"] = dict(reproduced=True, input=model, note="obligation decided by native execution of the real functions")
             rep = self.replayers.get(cname)
+            if rep is None and model and cname in self.runs and v.smt2 is not None:
+                rep = lambda vc_, model_, _c=cname, _g=gid: concrete_replay(self.runs[_c][0], self.runs[_c][1], model_, _g.split("/", 1)[1] if "/" in _g else _g)
             if rep is not None:
                 try:
                     out = rep(v, model)
@@ -424,3 +428,111 @@ def model_value(model, name, default=None):
         return float(v)
     except Exception:
         return default
+
+
+class _Inconclusive(Exception):
+    pass
+
+
+def concrete_replay(run, expected_exceptions, model, oname):
+    """Replay of a counterexample on the real code: the contract's run function (which calls
+    the real hypnotoad function objects) is executed again under CPython with every symbolic
+    input replaced by the model's value -- exact rational arithmetic (Sym wrapping z3
+    numerals), no solver involved; sqrt/exp/... applications take the model's value for that
+    application (else a 12-digit rational approximation).  The obligation is then EVALUATED."""
+    import math
+    from fractions import Fraction
+
+    from .shim import numpy_shimmed
+    from .sym import Ctx, Sym
+
+    vals = {}
+    for k, v in model.items():
+        try:
+            v2 = _num(v)
+            if isinstance(v2, Fraction):
+                vals[k] = v2
+        except Exception:
+            pass
+    used, defaulted, approx = {}, [], []
+
+    class ConcreteCtx(Ctx):
+        def _val(self, name, default):
+            if name in vals:
+                used[name] = str(vals[name])
+                return vals[name]
+            defaulted.append(name)
+            return default
+
+        def real(self, name):
+            f = self._val(name, Fraction(1))
+            return Sym(z3.RealVal(str(Fraction(f))))
+
+        def int(self, name):
+            return Sym(z3.IntVal(int(self._val(name, 1))))
+
+        def bool(self, name):
+            b = model.get(name)
+            return Sym(z3.BoolVal(str(b).lower() == "true"))
+
+        def pi(self):
+            return Sym(z3.RealVal(str(Fraction(vals.get("pi", Fraction(math.pi)))))) if "pi" in vals else Sym(z3.RealVal("3.14159265358979"))
+
+        def decide(self, term):
+            t = z3.simplify(term)
+            if z3.is_true(t):
+                return True
+            if z3.is_false(t):
+                return False
+            raise _Inconclusive("a branch condition does not evaluate on the model: %s" % str(t)[:120])
+
+        def apply(self, fname, arg):
+            a = z3.simplify(arg)
+            name = "%s!%d" % (fname, next(self.counter))
+            if name in vals:
+                used[name] = str(vals[name])
+                return z3.RealVal(str(Fraction(vals[name])))
+            if z3.is_rational_value(a):
+                x = float(a.as_fraction())
+                try:
+                    y = {"sqrt": math.sqrt, "exp": math.exp, "log": math.log, "sin": math.sin, "cos": math.cos, "erf": math.erf}[fname](x)
+                except Exception:
+                    raise _Inconclusive("%s(%r) undefined" % (fname, x))
+                approx.append("%s(%.6g)" % (fname, x))
+                return z3.RealVal(str(Fraction(y).limit_denominator(10**12)))
+            raise _Inconclusive("%s applied to a non-numeral" % fname)
+
+    ctx = ConcreteCtx([])
+    out = dict(kind="concrete re-execution of the real function on the solver's model (exact rationals)", inputs=None)
+    try:
+        with numpy_shimmed():
+            with ctx:
+                try:
+                    run(ctx)
+                except _Inconclusive as e:
+                    return dict(out, reproduced=False, note="inconclusive: %s" % e)
+                except tuple(expected_exceptions or ()) as e:
+                    out["raised"] = repr(e)[:200]
+    except Exception:
+        return dict(out, reproduced=False, note="re-execution failed: " + traceback.format_exc()[-400:])
+    out["inputs"] = dict(sorted(used.items())[:60])
+    if defaulted:
+        out["inputs_not_in_model_set_to_1"] = sorted(set(defaulted))[:30]
+    if approx:
+        out["transcendental_values_approximated"] = approx[:10]
+    pre_false = [str(t)[:100] for t in ctx.pc if z3.is_false(z3.simplify(t))]
+    if pre_false:
+        return dict(out, reproduced=False, note="the completed model violates a precondition on re-execution: %s" % pre_false[:2])
+    hits = [o for o in ctx.obligations if o["name"] == oname]
+    if oname.startswith("no-raise:"):
+        return dict(out, reproduced="raised" in out, note="re-execution %s" % ("raised " + out.get("raised", "") if "raised" in out else "did not raise"))
+    if not hits:
+        return dict(out, reproduced=False, note="obligation not reached on the path taken by this input")
+    verdicts = []
+    for o in hits:
+        t = z3.simplify(o["cond"])
+        verdicts.append("false" if z3.is_false(t) else ("true" if z3.is_true(t) else "open"))
+    out["obligation_values"] = verdicts
+    if "false" in verdicts:
+        return dict(out, reproduced=True, note="the obligation evaluates to False on this input")
+    return dict(out, reproduced=False, note="the obligation does not evaluate to False on this input (%s)" % ",".join(verdicts))
